@@ -77,7 +77,9 @@ class _JSONParser:
             raise self.error("no number after minus sign")
         self.pos = match.end()
         literal = match.group(0)
-        if match.group(1) is None and match.group(2) is None:
+        if match.group(1) is None and match.group(2) is None and len(literal) <= 400:
+            # (longer literals go to float(): the host refuses to convert
+            # very long digit strings to an integer)
             number = int(literal)
             # Host integers stand for doubles only while they are exact
             if number != 0 and -_MAX_SAFE_INTEGER <= number <= _MAX_SAFE_INTEGER:
